@@ -33,6 +33,14 @@ UNITS = {
         ],
         'trusted': ['Kani harnesses link the real kmer crate through a path dependency on /repo/kmer (no extraction)'],
     },
+    'minimiser': {
+        'template': 'minimiser.vrs', 'backend': 'verus',
+        'serves': ['C09', 'C16'],
+    },
+    'kmer_minimiser': {
+        'template': 'kmer_minimiser.vrs', 'backend': 'verus',
+        'serves': ['C18', 'C16'],
+    },
     'n2k': {
         'template': 'n2k.vrs', 'backend': 'verus',
         'serves': ['C02', 'C03'],
@@ -60,6 +68,24 @@ PROPS = {
         'level_note': 'trusted: Verus/Z3, vstd, extractor rules R1 R3 R6 R8; R8 stub verif_rev_string (std chars().rev().collect() reverses a string) is assumed; '
                       'stream-reversal symmetry for whole sequences is a spec-level corollary (see evidence not_reached if not yet proved).',
         'not_reached': ['stream symmetry of a whole reverse-complemented sequence (spec-level lemma over kmers_spec), if not listed among the bundles'],
+    },
+    'C09': {
+        'units': ['minimiser'], 'deps': [], 'replay': 'c09',
+        'level_text': 'Verus proves for the verbatim MinimiserGenerator::new/next, every byte string and every 1 <= m <= w, m <= 31: the representation invariant, '
+                      'absence of panics/overflow/unwrap-on-None, termination, and that every emitted triple carries a real minimiser (never the u64::MAX placeholder) '
+                      'and spans at least one full window inside the sequence.',
+        'level_note': 'trusted: Verus/Z3, vstd (VecDeque model), assumed std contracts VecDeque::get and cmp::min, extractor rules R1 R3. '
+                      'Stage (ii) clauses (minimiser value, maximality, completeness of runs) are listed under not_reached until discharged.',
+        'not_reached': ['pyo3 glue of pybindings/src/min.rs (__next__ delegates to next)'],
+    },
+    'C18': {
+        'units': ['kmer_minimiser'], 'deps': [], 'replay': 'c18',
+        'level_text': 'Verus proves for the verbatim KmerMinimiserGenerator::new/next, every byte string and every 1 <= m <= w <= 31: the same representation '
+                      'invariant and run contract as the plain minimiser iterator (identical state machine, same clauses), plus the k-register invariants; '
+                      'no panic, no overflow, termination, no placeholder value emitted.',
+        'level_note': 'trusted: Verus/Z3, vstd, assumed std contracts VecDeque::get, cmp::min, R8 stub verif_clone_from (Vec<u64>::clone_from copies); extractor rules R1 R3 R8. '
+                      'Stage (ii) clauses (equality of runs with the plain iterator as values, conservation of w-mers) are listed under not_reached until discharged.',
+        'not_reached': [],
     },
 }
 
